@@ -168,23 +168,3 @@ func demo(outPath string) {
 	out.Close()
 	fmt.Printf("demo events %d\n", out.N)
 }
-
-// parseOnly: run the parser alone on a text (one value) and print the rows; development aid.
-func parseOnly(L int, unicode bool, textPath, outPath string) {
-	b, err := os.ReadFile(textPath)
-	if err != nil {
-		kit.Fatalf("read: %v", err)
-	}
-	bar := '|'
-	if unicode {
-		bar = '│'
-	}
-	ls, perr := splitDump(string(b), L, bar)
-	out := kit.NewOut(outPath)
-	g := rowsOf(ls, L, bar, "", "")
-	if perr != "" {
-		g.Perr = perr
-	}
-	out.Emit(g)
-	out.Close()
-}
